@@ -20,4 +20,4 @@ for d in glob.glob('/verif/harness/shims/*'):
         rep[os.path.join(repo,pkg,os.path.basename(f))]=f
 json.dump({'Replace':rep},open(os.path.join(work,'overlay.json'),'w'),indent=1)
 PY
-cd "$REPO" && go build -tags verif -overlay "$WORK/overlay.json" -o "$OUT" ./internal/verifharness
+cd "$REPO" && go build $3 -tags verif -overlay "$WORK/overlay.json" -o "$OUT" ./internal/verifharness
